@@ -113,11 +113,16 @@ CLAIMS = {
         note='Trusted: SymFS stat model, SHA-1. Outside: unique decodability of the directory blob for arbitrary names (planned z3 query), device/fifo nodes, trees larger than the bound.'),
     'C13': dict(
         engine='X',
-        technique='CrossHair enumeration of variable declarations through the real Recipe.prepare pipeline against the documented visibility rule',
-        text='Part of the property: for all 2^14 combinations of a variable being listed in {checkout,build,package}Vars[Weak] of a recipe and an inherited class (defined or not), each step sees exactly the variables declared '
-             'for it or an earlier step, with the declared value. Not covered yet: shell quoting of values, host environment whitelist, fingerprint environment, sandbox mounts.',
+        technique='CrossHair+z3 symbolic execution of the quoting function on symbolic strings against a shell word-lexer model; CrossHair enumeration of variable declarations through the real Recipe.prepare pipeline; '
+                  'CrossHair enumeration of hostile values / environment settings through real in-process bob dev with the real bash executing build, package and fingerprint scripts',
+        text='(1) For every string up to length 4 (thorough 7) without NUL the word bob.languages.quote() writes into the bash prolog is read back by the sh quoting rules as exactly that string, as one literal word. '
+             '(2) For all 2^14 combinations of a variable being listed in {checkout,build,package}Vars[Weak] of a recipe and an inherited class, each step sees exactly the variables declared for it or an earlier step. '
+             '(3) Real bash: for 17 hostile values (blanks, $, $( ), backticks, both quotes, backslash, newline, tab, glob, non-ASCII, empty, -n), with and without -E and with and without a white-listed host variable, '
+             'the build, package and fingerprint scripts see the declared variables with exactly that value, no variable of a later step, no undeclared recipe variable, the fingerprint script only its fingerprintVars, '
+             'and host variables only if white-listed (or -E).',
         design_ref='DESIGN.md section 4, C13',
-        note='Outside: namespace-sandbox.c, PowerShell, execution of real scripts.'),
+        note='Trusted: the word-lexer model (the real bash run (3) cross-checks it on the hostile values). Outside: sandbox mounts and namespace-sandbox.c, PowerShell, positional arguments / PATH / LD_LIBRARY_PATH of tools, '
+             'checkout scripts, values longer than the bound in (1).'),
     'C15': dict(
         engine='X',
         technique='symbolic execution (CrossHair+z3) of LocalShare.gc/install/use from an arbitrary valid store with symbolic sizes/quota/flags, plus bounded symbolic interleavings of two store operations with an flock model',
